@@ -323,7 +323,7 @@ struct ReadRun {
 #[allow(clippy::too_many_arguments)]
 fn do_read(artifact: &Arc<Vec<u8>>, armor: bool, opener: &Opener, verifiers: &[&'static str], sched: Sched, cap: usize, consumer: &Consumer, faults: Vec<Fault>, max: usize) -> ReadRun {
     let (input, log) = seams::sim_bufread(artifact.clone(), sched, cap, faults);
-    let spec = ReadSpec { armor, opener: opener.clone(), consumer, verifiers: verifiers.to_vec(), max, streaming_v1: false, v1_limit: None };
+    let spec = ReadSpec { armor, opener: opener.clone(), consumer, verifiers: verifiers.to_vec(), max, streaming_v1: false, v1_limit: None, opts: 0 };
     let result = guard(|| workload::read_message(input, &spec));
     let log = log.lock().unwrap().clone();
     ReadRun { result, log }
